@@ -16,25 +16,25 @@ import (
 // STAGE's allow_failure; a task's own allow_failure covers non-zero exits of its commands only. A task that fails in
 // another way (a failing before hook, a command that cannot be rendered, an unknown context, a timeout) fails its
 // stage, its dependants are cancelled and the run reports an error - unless the stage itself allows failure.
-func c02RealConfigCases(col *Collector) {
+func c02RealConfigCases(col *Collector, focus string) {
 	type variant struct {
 		name, taskBody string
 		failsStage     bool // the task's run returns an error
 	}
 	variants := []variant{
-		{"command exits 3, task allows failure", "    allow_failure: true\n    command: [\"exit 3\"]\n", false},
-		{"command exits 3", "    command: [\"exit 3\"]\n", true},
+		{"command exits 3, task allows failure", "    allow_failure: true\n    command: [\"echo first >> TRACE; exit 3\"]\n", false},
+		{"command exits 3", "    command: [\"echo first >> TRACE; exit 3\"]\n", true},
 		{"before hook fails, task allows failure", "    allow_failure: true\n    before: [\"false\"]\n    command: [\"true\"]\n", true},
 		{"undefined variable, task allows failure", "    allow_failure: true\n    command: [\"echo {{ .Undefined }}\"]\n", true},
 		{"unknown context, task allows failure", "    allow_failure: true\n    context: nosuch\n    command: [\"true\"]\n", true},
-		{"timeout, task allows failure", "    allow_failure: true\n    timeout: 200ms\n    command: [\"sleep 5\"]\n", true},
+		{"timeout, task allows failure", "    allow_failure: true\n    timeout: 200ms\n    command: [\"echo first >> TRACE; sleep 5\"]\n", true},
 	}
 	for _, v := range variants {
 		for _, stageAllows := range []bool{false, true} {
 			dir := newScratchDir("c02r")
 			trace := filepath.Join(dir, "trace")
 			var b strings.Builder
-			b.WriteString("tasks:\n  first:\n" + v.taskBody)
+			b.WriteString("tasks:\n  first:\n" + strings.ReplaceAll(v.taskBody, "TRACE", trace))
 			fmt.Fprintf(&b, "  second:\n    command: [\"echo second >> %s\"]\n  third:\n    command: [\"echo third >> %s\"]\n  side:\n    command: [\"echo side >> %s\"]\n", trace, trace, trace)
 			b.WriteString("pipelines:\n  p:\n    - task: first\n")
 			if stageAllows {
@@ -71,7 +71,7 @@ func c02RealConfigCases(col *Collector) {
 				select {
 				case serr = <-done:
 				case <-time.After(20 * time.Second):
-					cs.Fail, cs.Sig = "the run did not return within 20s", "c02-final-status"
+					cs.Fail, cs.Sig = "the run did not return within 20s", map[bool]string{true: "c03-no-return", false: "c02-final-status"}[focus == "C03"]
 					return
 				}
 				st := map[string]int32{}
@@ -84,6 +84,19 @@ func c02RealConfigCases(col *Collector) {
 				want := fmt.Sprintf("first=%d second=%d third=%d side=%d err=%v", scheduler.StatusDone, scheduler.StatusDone, scheduler.StatusDone, scheduler.StatusDone, false)
 				if blocked {
 					want = fmt.Sprintf("first=%d second=%d third=%d side=%d err=%v", scheduler.StatusError, scheduler.StatusCanceled, scheduler.StatusCanceled, scheduler.StatusDone, true)
+				}
+				if focus == "C03" {
+					if os.Getenv("VERIF_DEBUG_C03") != "" {
+						fmt.Fprintln(os.Stderr, "c02real:", v.name, stageAllows, cs.Impl, readTrace(trace))
+					}
+					// every stage is executed at most once: the commands of its task leave one line each
+					all := strings.Join(readTrace(trace), ",") // concurrent appends may glue two lines together
+					for _, name := range []string{"first", "second", "third", "side"} {
+						if n := strings.Count(all, name); n > 1 {
+							cs.Fail, cs.Sig = fmt.Sprintf("the command of stage %s was executed %d times in one run", name, n), "c03-twice"
+						}
+					}
+					return
 				}
 				if !strings.HasPrefix(cs.Impl, want+" ") {
 					cs.Fail, cs.Sig = fmt.Sprintf("the run ended with %s, the graph and the outcomes determine %s", cs.Impl, want), "c02-final-status"
